@@ -22,7 +22,8 @@ for name, d in res.items():
     if rel not in trees:
         trees[rel] = ast.parse(open(os.path.join(REPO, rel), encoding="utf-8").read())
     b, shp = alpha.describe(trees[rel], qual)
-    out[name] = {"fhash": d["fhash"], "binders": b, "shape": shp, "discharged": sorted(v["id"] for v in d["vcs"] if v["status"] == "discharged"),
+    fnode = alpha.find(trees[rel], qual)
+    out[name] = {"fhash": d["fhash"], "binders": b, "shape": shp, "params": alpha.param_names(fnode) if fnode is not None else None, "discharged": sorted(v["id"] for v in d["vcs"] if v["status"] == "discharged"),
                  "not_discharged": sorted(v["id"] for v in d["vcs"] if v["status"] != "discharged"), "unsupported": d["unsupported"]}
 json.dump(out, open(BASELINE, "w"), indent=1)
 print(sum(len(v["discharged"]) for v in out.values()), "discharged;", sum(len(v["not_discharged"]) for v in out.values()), "not;",
